@@ -389,6 +389,11 @@ func (cv CertValidity) toTimeStruct() (config.CertificateValidity, error) {
 		}
 	}
 
+	//neither the config hash (JSON) nor X.509 can express years beyond 9999
+	if out.From.Year() < 0 || out.From.Year() > 9999 || out.Until.Year() < 0 || out.Until.Year() > 9999 {
+		return out, errors.New(`config-v1: validity period must lie within the years 0000 to 9999`)
+	}
+
 	return out, nil
 }
 
